@@ -63,6 +63,9 @@ PROVED = {
  'C20': ('Theorems C20_fault_* (one per fault kind: version, unknown attribute type, vendor, unknown message type, error type, truncated payload, invalid UTF-8, offset), '
          'C20_single_fault, C20_render_total, C20_name_matches_dispatch (avp_name agrees with the dispatch table for every number), C20_decoded_kind_name, C20_render_shows_name. '
          'The rendered text is compared octet for octet for all 65536 numbers x 3 variants on every run.'),
+ 'C10': ('Theorems C10_reencode_ctrl / C10_reencode_data (for every accepted octet string, under any options: the decoded value is encodable, decode_strict(encode m) = m up to the control '
+         'Length, which becomes the new size, and the second encoding is identical), with the key lemmas C10_decoded_avp_wf / C10_decoded_ctrl_wf (every value the decoder returns is in the '
+         "encoder's domain and re-encodes to at most the octets it was read from)."),
 }
 for pid, txt in PROVED.items():
     META[pid] = P('proof', txt, 'DESIGN.md section 7 (%s)' % pid, PROOF_TECH, CORR)
